@@ -17,9 +17,11 @@ import vlib
 from vlib import Ctx, Inconclusive, finish
 
 import props_lex
+import props_prog
 
 REGISTRY = {}
 REGISTRY.update(props_lex.CHECKS)
+REGISTRY.update(props_prog.CHECKS)
 
 
 def replay_fn(ctx, path):
